@@ -41,7 +41,7 @@ CONTRACTS = {
         "groupings), tensordot with the conjugate in fused mode, reshape (merge adjacent axes), svd of the fused matrix; under "
         "cache sizes 0, 1, 2, 8192: cold, warm (same objects, other order), warm through freshly built objects, near-miss "
         "order (same operation on all family members consecutively) -- every result equals the one computed on fresh "
-        "operands with the cache disabled (exact, incl. sub-index tables; svd factors to 1e-9); len(cache) <= maxsize after "
+        "operands with the cache disabled (exact, incl. sub-index tables; svd factors to 1e-9); len(cache) <= maxsize after every call; cache size limits maxsize in {0,1,2,8192} and per-array sector limit maxsectors in {512, 0, 3} (bypass path); "
         "every call",
         "quick: 300 seeded families (plain + sub-index variants) x 4 cache sizes x 2 order seeds; thorough: 6000 families; each case runs ~ 4 x |family| x "
         "|ops| (about 150-250) operation calls",
@@ -242,20 +242,24 @@ class _Globals:
 
     def __enter__(self):
         self.maxsize = _ac._fuseinfo_cache_maxsize
+        self.maxsectors = _ac._fuseinfo_cache_maxsectors
         self.mode = _ac._DEFAULT_TENSORDOT_MODE
         self.switch = sys.getswitchinterval()
         return self
 
     def __exit__(self, *exc):
         _ac._fuseinfo_cache_maxsize = self.maxsize
+        _ac._fuseinfo_cache_maxsectors = self.maxsectors
         _ac._fuseinfos.clear()
         _ac._DEFAULT_TENSORDOT_MODE = self.mode
         sys.setswitchinterval(self.switch)
         return False
 
 
-def _set_cache(maxsize):
+def _set_cache(maxsize, maxsectors=512):
     _ac._fuseinfo_cache_maxsize = maxsize
+    # arrays with more stored sectors than this bypass the cache ("too many sectors" path)
+    _ac._fuseinfo_cache_maxsectors = maxsectors
     _ac._fuseinfos.clear()
 
 
@@ -278,14 +282,15 @@ def _gen_history(tier, seed):
         fam, sub = res
         made += 1
         for kind, members, ndm in (("plain", fam, nd), ("subindex", sub, nd - 1)):
-            for maxsize in (0, 1, 2, 8192):
+            for maxsize in (0, 1, 2, 8192, (8192, 0), (8192, 3)):
                 for order_seed in (0, 1):
                     yield {
                         "contract": "C15.cache_history",
                         "family_kind": kind,
                         "family": [[k, s] for k, s in members],
                         "ops": _ops(ndm),
-                        "maxsize": maxsize,
+                        "maxsize": maxsize if isinstance(maxsize, int) else maxsize[0],
+                        "maxsectors": 512 if isinstance(maxsize, int) else maxsize[1],
                         "order_seed": order_seed,
                     }
 
@@ -377,7 +382,7 @@ def _check_history(d):
     fails = []
 
     def add(ob, what, **kw):
-        f = {"maxsize": maxsize, "family_kind": d["family_kind"], "fermionic": bool(fam[0][1]["fermionic"]), "sym": fam[0][1]["sym"]}
+        f = {"maxsize": maxsize, "maxsectors": d.get("maxsectors", 512), "family_kind": d["family_kind"], "fermionic": bool(fam[0][1]["fermionic"]), "sym": fam[0][1]["sym"]}
         f.update(kw)
         if len(fails) < 6:
             fails.append((ob, what, f))
@@ -391,7 +396,7 @@ def _check_history(d):
         for i, j in sorted(tasks):
             ref[i, j] = _run_op_safe(ref_arrays[i], ops[j])
 
-        _set_cache(maxsize)
+        _set_cache(maxsize, d.get("maxsectors", 512))
         rng = np.random.default_rng([d["order_seed"], 7])
         try:
             arrays = [build_array(s) for _, s in fam]
